@@ -273,6 +273,43 @@ theorem searchAux_inv (M : Nat) (P : Frag → List STok → Prop)
     · rename_i hc
       exact ih _ (hadd f t ts hP hc)
 
+/-- the same rule, remembering *why* each fragment was closed: end of the stream, or a token
+that did not fit -/
+theorem searchAux_inv' (M : Nat) (P : Frag → List STok → Prop)
+    (hsafe : ∀ f t ts, P f (t :: ts) → ¬ t.to < f.start)
+    (hadd : ∀ f t ts, P f (t :: ts) → ¬ (t.to - f.start > M) → P (f.add t) ts)
+    (hcut : ∀ f t ts, P f (t :: ts) → t.to - f.start > M → P ((Frag.new t.from_).add t) ts) :
+    ∀ ts f, P f ts → ∃ frags, searchAux M f ts = some frags ∧
+      ∀ g ∈ frags, P g [] ∨ ∃ t rest, P g (t :: rest) ∧ t.to - g.start > M := by
+  intro ts
+  induction ts with
+  | nil =>
+    intro f hP
+    refine ⟨emit f, rfl, ?_⟩
+    intro g hg
+    unfold emit at hg
+    split at hg
+    · simp only [List.mem_singleton] at hg; subst hg; exact Or.inl hP
+    · simp at hg
+  | cons t ts ih =>
+    intro f hP
+    simp only [searchAux]
+    rw [if_neg (hsafe f t ts hP)]
+    split
+    · rename_i hc
+      obtain ⟨frags, e, h⟩ := ih _ (hcut f t ts hP hc)
+      refine ⟨emit f ++ frags, by rw [e]; rfl, ?_⟩
+      intro g hg
+      rw [List.mem_append] at hg
+      rcases hg with hg | hg
+      · unfold emit at hg
+        split at hg
+        · simp only [List.mem_singleton] at hg; subst hg; exact Or.inr ⟨t, ts, hP, hc⟩
+        · simp at hg
+      · exact h g hg
+    · rename_i hc
+      exact ih _ (hadd f t ts hP hc)
+
 theorem selectBest_mem : ∀ (frags : List Frag) (f : Frag), selectBest frags = some f → f ∈ frags := by
   intro frags f h
   cases frags with
